@@ -1,5 +1,6 @@
 #!/bin/bash
 # tools/seed_eval.sh <ID> [checks...]  - independently confirm a seeded change and run checks against it.
+# (set SEED_SCRATCH=1 to leave /repo untouched and use a scratch worktree for the checks as well)
 # 1. fresh scratch worktree of /repo HEAD; demo must pass there; 2. apply patch: demo must fail, 42 stable tests must pass;
 # 3. apply the patch to /repo itself, run the checks, undo it straight afterwards.
 id=$1; shift; checks="$@"
@@ -21,7 +22,9 @@ base=$(FORMAK_REPO=$W /verif/tools/baseline.py 2>&1 | head -1)
 git -C /repo worktree remove --force $W
 echo "$id: demo unpatched rc=$d0, patched rc=$d1; $base"
 res=""
-if [ -n "$checks" ] && [ "$BASE" != HEAD ]; then
+# SEED_SCRATCH=1: run the checks against a scratch worktree of HEAD with the patch applied instead of patching /repo itself
+# (same code, FORMAK_REPO points at it) - used when /repo is busy being read by a long thorough run
+if [ -n "$checks" ] && { [ "$BASE" != HEAD ] || [ -n "$SEED_SCRATCH" ]; }; then
   # the patch no longer applies to /repo HEAD: run the checks against a scratch worktree of the seed's base commit instead
   git -C /repo worktree add -q --detach $W $BASE && (cd $W && git apply $S/patch.diff) || exit 2
   for c in $checks; do
